@@ -2,6 +2,8 @@ package main
 
 import (
 	"fmt"
+	"os"
+	"runtime/debug"
 	"regexp"
 	"go/token"
 	"go/types"
@@ -28,6 +30,9 @@ type Val struct {
 type OOS struct{ msg string } // out-of-subset
 
 func oos(format string, a ...any) {
+	if os.Getenv("GOVC_DEBUG") != "" {
+		debug.PrintStack()
+	}
 	panic(OOS{fmt.Sprintf(format, a...)})
 }
 
@@ -217,6 +222,9 @@ type Gen struct {
 	curPos  token.Pos
 	bodyless bool
 	strConsts map[string]Val
+	cellAddr map[*ssa.Alloc]*Addr
+	inlineStack []*ssa.Function
+	inlineRets []inlineRet
 	fuelDecl bool
 	axDone map[string]bool
 	pendingArgAddrs map[string]*Addr
